@@ -4,86 +4,170 @@ import IofloModel.Model.HttpValet
 step, whatever the bytes. -/
 namespace Ioflo.Http
 
-/-- nothing has escaped `parse()` and the generator is not dead; the tree is the repaired one -/
+/-- the event source kept by the parser has not been killed by an exception -/
+def esAlive (c : Core) : Prop := ∀ st, c.es = some st → ∀ e, st.ev.status ≠ .dead e
+
+/-- nothing has escaped `parse()` and the generator is not dead; the tree is the repaired one;
+the event source, if any, is not a dead one -/
 def Safe (c : Core) : Prop :=
-  c.escaped = none ∧ c.gen ≠ .dead ∧ c.stopIter = false ∧ c.catchVE = true
+  c.escaped = none ∧ c.gen ≠ .dead ∧ c.stopIter = false ∧ c.catchVE = true ∧ esAlive c
 
 def Res.core : Res → Core
   | .stop c _ => c
   | .cont c _ => c
 
+/-- a step that leaves the safety fields and the event source alone, ending in a live position -/
+theorem safe_of {c c' : Core} (h : Safe c) (he : c'.escaped = c.escaped) (hg : c'.gen ≠ .dead)
+    (hs : c'.stopIter = c.stopIter) (hc : c'.catchVE = c.catchVE) (hes : c'.es = c.es) : Safe c' := by
+  obtain ⟨h1, h2, h3, h4, h5⟩ := h
+  refine ⟨he ▸ h1, hg, hs ▸ h3, hc ▸ h4, ?_⟩
+  intro st hst; rw [hes] at hst; exact h5 st hst
+
 theorem safe_raise {c : Core} (h : Safe c) (e : Exc) (buf : Bytes) : Safe (raise c e buf).core := by
-  obtain ⟨h1, h2, h3, h4⟩ := h
-  simp [raise, h4, httpFail, Res.core, Safe, h1, h3]
+  have h4 := h.2.2.2.1
+  have hc : (e.isHttp || c.catchVE) = true := by rw [h4]; simp
+  unfold raise
+  rw [if_pos hc]
+  exact safe_of h rfl (by simp [httpFail, Res.core]) rfl rfl rfl
 
 theorem safe_finishBody {c : Core} (h : Safe c) (buf : Bytes) : Safe (finishBody c buf).core := by
-  obtain ⟨h1, h2, h3, h4⟩ := h
-  simp [finishBody, Res.core, Safe, h1, h3, h4]
+  simp only [finishBody, Res.core]
+  exact safe_of h rfl (by simp) rfl rfl rfl
 
 theorem safe_enterLeader {c : Core} (h : Safe c) (g : Gen) (hg : g ≠ .dead) (buf : Bytes) :
     Safe (enterLeader c g buf).core := by
   unfold enterLeader
   split
   · exact safe_raise h _ _
-  · obtain ⟨h1, h2, h3, h4⟩ := h
-    simp [Res.core, Safe, h1, h3, h4, hg]
+  · exact safe_of h rfl hg rfl rfl rfl
 
 theorem safe_startBody {c : Core} (h : Safe c) (buf : Bytes) : Safe (startBody c buf).core := by
-  have hb : Safe { c with body := [] } := h
-  have hp : Safe { c with body := [], parms := some [] } := h
+  have hb : Safe { c with body := [] } := safe_of h rfl h.2.1 rfl rfl rfl
+  have hp : Safe { c with body := [], parms := some [] } := safe_of h rfl h.2.1 rfl rfl rfl
   unfold startBody
   simp only []
   split
   · split
     · exact safe_raise hp _ _
-    · obtain ⟨h1, h2, h3, h4⟩ := h
-      simp [Res.core, Safe, h1, h3, h4]
+    · exact safe_of h rfl (by simp [Res.core]) rfl rfl rfl
   · split
-    · obtain ⟨h1, h2, h3, h4⟩ := h
-      simp [Res.core, Safe, h1, h3, h4]
+    · exact safe_of h rfl (by simp [Res.core]) rfl rfl rfl
     · split
       · exact safe_raise hb _ _
-      · obtain ⟨h1, h2, h3, h4⟩ := h
-        simp [Res.core, Safe, h1, h3, h4]
+      · exact safe_of h rfl (by simp [Res.core]) rfl rfl rfl
+
+theorem safe_newEs {c : Core} (h : Safe c) : Safe (newEs c) := by
+  obtain ⟨h1, h2, h3, h4, _⟩ := h
+  refine ⟨h1, h2, h3, h4, ?_⟩
+  intro st hst e
+  unfold newEs at hst
+  simp only [Option.some.injEq] at hst
+  subst hst
+  simp
 
 theorem safe_headDone {c : Core} (h : Safe c) (H : Hdrs) (buf : Bytes) : Safe (headDone c H buf).core := by
   unfold headDone
   split
   · unfold reqHeadDone
-    exact safe_startBody (c := reqHeadCore c H) h buf
+    exact safe_startBody (c := reqHeadCore c H) (safe_of h rfl h.2.1 rfl rfl rfl) buf
   · unfold rspHeadDone
     simp only []
     split
-    · obtain ⟨h1, h2, h3, h4⟩ := h
-      simp [Res.core, Safe, rspHeadCore, h1, h3, h4]
-    · exact safe_startBody (c := { rspHeadCore c H with
-        persisted := rspPersisted (rspHeadCore c H).version H (isChunked H) (rspHeadCore c H).length }) h buf
+    · apply safe_startBody
+      apply safe_newEs
+      exact safe_of h rfl h.2.1 rfl rfl rfl
+    · apply safe_startBody
+      exact safe_of h rfl h.2.1 rfl rfl rfl
+
+/-- the event source after `parse()`: alive, or dropped because it died in this call; a dead one is
+never consulted (`runtimeError` does not occur) -/
+theorem safe_evParse {c : Core} (h : Safe c) :
+    Safe (evParse c).1 ∧ (evParse c).2 ≠ .exc .runtimeError ∧ (evParse c).1.gen = c.gen := by
+  obtain ⟨h1, h2, h3, h4, h5⟩ := h
+  unfold evParse
+  cases hes : c.es with
+  | none => exact ⟨⟨h1, h2, h3, h4, by intro st hst; simp [hes] at hst⟩, by simp, rfl⟩
+  | some st =>
+    have hst := h5 st hes
+    simp only []
+    have hr : Sse.raised st (Sse.feed c.max { st with raw := c.body } []) ≠ .stopIteration := by
+      unfold Sse.raised
+      cases hs : st.ev.status with
+      | dead e => exact absurd hs (hst e)
+      | running => split <;> simp_all
+      | finished => split <;> simp_all
+      | unmodelled => split <;> simp_all
+    cases hrr : Sse.raised st (Sse.feed c.max { st with raw := c.body } []) with
+    | stopIteration => exact absurd hrr hr
+    | err e =>
+      cases e <;> refine ⟨⟨h1, h2, h3, h4, by intro st' hst'; simp at hst'⟩, by simp, rfl⟩
+    | none =>
+      have halive : ∀ e, (Sse.feed c.max { st with raw := c.body } []).ev.status ≠ .dead e := by
+        intro e he
+        unfold Sse.raised at hrr
+        cases hs : st.ev.status with
+        | dead e' => exact absurd hs (hst e')
+        | running => simp [hs, he] at hrr
+        | finished => simp [hs, he] at hrr
+        | unmodelled => simp [hs, he] at hrr
+      simp only []
+      split
+      · refine ⟨⟨h1, h2, h3, h4, ?_⟩, by simp, rfl⟩
+        intro st' hst'; simp at hst'; subst hst'; exact halive
+      · refine ⟨⟨h1, h2, h3, h4, ?_⟩, by simp, rfl⟩
+        intro st' hst'; simp at hst'; subst hst'; exact halive
+
+theorem safe_esStep {c : Core} (h : Safe c) (buf : Bytes) (k : Core → Res)
+    (hk : ∀ c1, Safe c1 → c1.gen = c.gen → Safe (k c1).core) : Safe (esStep c buf k).core := by
+  unfold esStep
+  split
+  · obtain ⟨hs, hne, hg⟩ := safe_evParse h
+    cases hp : evParse c with
+    | mk c' o =>
+      rw [hp] at hs hne hg
+      cases o with
+      | ok => exact hk c' hs hg
+      | exc e =>
+        simp only []
+        split
+        · rename_i he; subst he; exact absurd rfl hne
+        · exact safe_raise hs _ _
+      | outside => exact safe_of hs rfl (by simp [Res.core]) rfl rfl rfl
+  · exact hk c h rfl
 
 theorem safe_chunkDone {c : Core} (h : Safe c) (pm : Parms) (chunk buf : Bytes) :
     Safe (chunkDone c pm chunk buf).core := by
-  have hc : Safe { c with parms := updParms c.parms pm, body := c.body ++ chunk } := h
   unfold chunkDone
-  simp only []
+  have hc : Safe { c with parms := updParms c.parms pm, body := c.body ++ chunk } := safe_of h rfl h.2.1 rfl rfl rfl
+  refine safe_esStep hc _ _ ?_
+  intro c1 h1 _
   split
-  · exact safe_finishBody hc _
-  · obtain ⟨h1, h2, h3, h4⟩ := h
-    simp [Res.core, Safe, h1, h3, h4]
+  · exact safe_finishBody h1 _
+  · exact safe_of h1 rfl (by simp [Res.core]) rfl rfl rfl
 
 theorem safe_stepOn {c : Core} (h : Safe c) (buf : Bytes) : Safe (stepOn c buf).core := by
   unfold stepOn
   split
   case h_2 hg => exact absurd hg h.2.1
+  case h_14 hg =>
+    have hc : Safe { c with body := c.body ++ buf } := safe_of h rfl h.2.1 rfl rfl rfl
+    refine safe_esStep hc _ _ ?_
+    intro c1 h1 _
+    split
+    · exact safe_finishBody h1 _
+    · exact h1
   all_goals (repeat' (first | split | (simp only []; split)))
   all_goals first
-    | (apply safe_raise; exact h)
+    | (apply safe_raise; exact safe_of h rfl h.2.1 rfl rfl rfl)
     | (apply safe_enterLeader
-       · exact h
+       · exact safe_of h rfl h.2.1 rfl rfl rfl
        · simp)
-    | (apply safe_headDone; exact h)
-    | (apply safe_chunkDone; exact h)
-    | (apply safe_finishBody; exact h)
-    | (obtain ⟨h1, h2, h3, h4⟩ := h; simp [Res.core, Safe, h1, h3, h4]; done)
-    | (obtain ⟨h1, h2, h3, h4⟩ := h; simp_all [Res.core, Safe]; done)
+    | (apply safe_headDone; exact safe_of h rfl h.2.1 rfl rfl rfl)
+    | (apply safe_chunkDone; exact safe_of h rfl h.2.1 rfl rfl rfl)
+    | (apply safe_finishBody; exact safe_of h rfl h.2.1 rfl rfl rfl)
+    | exact h
+    | (refine safe_of h rfl ?_ rfl rfl rfl; simp [Res.core]; done)
+    | (refine safe_of h rfl ?_ rfl rfl rfl; simp_all [Res.core]; done)
 
 theorem safe_pump : ∀ (n : Nat) (c : Core) (buf : Bytes), Safe c → Safe (pump n c buf).core := by
   intro n
@@ -107,14 +191,28 @@ theorem safe_parse {s : St} (h : Safe s.core) : Safe (parse s).core := by
 theorem safe_feed {s : St} (h : Safe s.core) (b : Bytes) : Safe (feed s b).core :=
   safe_parse (s := { s with msg := s.msg ++ b }) h
 
-theorem safe_close {s : St} (h : Safe s.core) : Safe (close s).core := h
+theorem safe_close {s : St} (h : Safe s.core) : Safe (close s).core := by
+  obtain ⟨h1, h2, h3, h4, h5⟩ := h
+  refine ⟨h1, h2, h3, h4, ?_⟩
+  intro st hst e
+  simp only [close] at hst
+  cases hk : s.core.kind with
+  | req => simp only [hk] at hst; exact h5 st hst e
+  | rsp =>
+    simp only [hk] at hst
+    cases hes : s.core.es with
+    | none => simp [hes] at hst
+    | some st0 =>
+      simp [hes] at hst
+      subst hst
+      simpa [Sse.close] using h5 st0 hes e
 
-theorem safe_makeParser {s : St} (h : Safe s.core) : Safe (makeParser s).core := by
-  obtain ⟨h1, h2, h3, h4⟩ := h
-  simp [makeParser, Safe, h1, h3, h4]
+theorem safe_makeParser {s : St} (h : Safe s.core) : Safe (makeParser s).core :=
+  safe_of h rfl (by simp [makeParser]) rfl rfl rfl
 
 theorem safe_init (kind : Kind) (m : Bytes) (max : Nat) : Safe (init kind m max).core := by
-  simp [init, Safe]
+  refine ⟨rfl, by simp [init], rfl, rfl, ?_⟩
+  intro st hst; simp [init] at hst
 
 /-! ### the connection table -/
 
